@@ -744,7 +744,14 @@ class Runner:
             ctx.monitor("rebuilt_env_comparisons")
             d = _same(out, again2)
             if d:
-                ctx.violation(f"{spec['base'].lower()}-rollout-differs-on-rebuilt-env-object", {"stack": name, "spec": spec, **_first_diff(out, again2, d)} if d in out else {"stack": name, "what": d})
+                # same second-opinion rule as for the fresh interpreter: a rebuilt object may force a recompile;
+                # Python-side state makes two rebuilds disagree with each other as well
+                again3 = _np_tree(fn(build_env(spec), _keys(seed, K), jnp.asarray(acts.copy())))
+                if _same(again2, again3) is None:
+                    ctx.inconc(f"{name}: two rebuilt env objects agree with each other but not with the first "
+                               f"rollout in '{d}' (not reproducible as Python-side state)")
+                else:
+                    ctx.violation(f"{spec['base'].lower()}-rollout-differs-on-rebuilt-env-object", {"stack": name, "spec": spec, **_first_diff(out, again2, d)} if d in out else {"stack": name, "what": d})
         tm["reruns"] += time.time() - t0
         if child:
             self._spawn_child(spec, seed, K, T, acts, out, sampled)
